@@ -59,6 +59,9 @@ class C09Scenario(ChangeScenario):
             elif k == 'daemon-flag':
                 key = (p['op'], p['uid'], p['id'])
                 if key in live and live[key]['inst'] == p['inst']:
+                    if live[key]['flag'] is None and not self._reason_to_stop(env, spawned[p['id']], p['op'], t):
+                        out.append(self.viol(env, 'stopped-without-reason', f"t={t}: {p['id']} was asked to stop (reason {p.get('reason')}) although its object "
+                                                                            f"still exists and matches, and the operator neither pauses nor exits", clause='asked-to-stop-when'))
                     live[key]['flag'] = t
             elif k == 'daemon-cancelled':
                 key = (p['op'], p['uid'], p['id'])
@@ -160,6 +163,21 @@ class C09Scenario(ChangeScenario):
                     out.append(self.viol(env, 'started-late', f"daemon {key[2]} started at {te}, the object matched at {tm} (+ initial_delay {delay})", clause='started-on-match'))
         return out
 
+    def _reason_to_stop(self, env: Env, h: dict, op: str, t: float) -> bool:
+        """Has anything happened by `t` that can be a reason to stop an instance of this handler? (conservative: ever, not still)"""
+        if self._operator_gone(env, op, t):
+            return True
+        for tt, k, p in env.obs:
+            if tt > t:
+                break
+            if k == 'user':
+                n = p['name']
+                if n.startswith(('delete', 'strip', 'pause', 'stop', 'restart', 'kill')):
+                    return True
+                if n.startswith(('label', 'unlabel')) and not n.endswith('-yes') and h.get('labels'):
+                    return True
+        return False
+
     def _operator_gone(self, env: Env, op: str, t: float) -> bool:
         return any(k in ('stop', 'kill') and p.get('op') == op and tt <= t for tt, k, p in env.obs)
 
@@ -228,6 +246,13 @@ def handler_sets(tier: str) -> list[tuple[str, list[dict]]]:
     sets.append(('daemon+initial-delay', [dict(id='dm', on='daemon', reaction='obeys', initial_delay=1.0, **filt)]))
     sets.append(('daemon+timer', [dict(id='dm', on='daemon', reaction='cancel', cancellation_backoff=2.0, cancellation_timeout=3.0, **filt),
                                   dict(id='tm', on='timer', interval=4.0, script=['ok~1'], **filt)]))
+    # two spawned handlers of one object live and die separately: one exits on its own / stops matching, the other stays
+    sets.append(('daemon[exits]+daemon[obeys]', [dict(id='dm', on='daemon', reaction='exits', lifetime=2.0, **filt),
+                                                 dict(id='dm2', on='daemon', reaction='obeys', **filt)]))
+    sets.append(('daemon[filtered]+daemon[unfiltered]', [dict(id='dm', on='daemon', reaction='obeys', **filt),
+                                                         dict(id='dm2', on='daemon', reaction='exits', lifetime=9.0)]))
+    sets.append(('daemon[exits]+timer', [dict(id='dm', on='daemon', reaction='exits', lifetime=2.0, **filt),
+                                         dict(id='tm', on='timer', interval=4.0, script=['ok~1'], **filt)]))
     for name, tcfg in (('interval', dict(interval=4.0)), ('idle', dict(idle=3.0)), ('both', dict(interval=4.0, idle=3.0)), ('neither', dict()),
                        ('interval+initial', dict(interval=4.0, initial_delay=1.0)), ('idle+initial', dict(idle=3.0, initial_delay=1.0))):
         sets.append((f'timer[{name}]', [dict(id='tm', on='timer', script=['ok~1'], **tcfg, **filt)]))
